@@ -139,12 +139,13 @@ def generate(seed: int, config: str, tier: str) -> Dict[str, Any]:
             gen_query.gen_queries(rng, _SCRATCH_ENV, d, 1, ctx_doc=ctxs[0], opts=opts, p_compound=0.1, must_filter=rng.random() < 0.8)
         )
     envs = [e for e in ENVS if rng.random() < 0.6] or [rng.choice(ENVS)]
-    n_clients = rng.randint(2, 6) if kind != "threads" else rng.randint(2, 4)
+    deep = tier == "thorough"  # larger worlds in the thorough tier
+    n_clients = rng.randint(2, 8 if deep else 6) if kind != "threads" else rng.randint(2, 5 if deep else 4)
     clients: List[List[List[Any]]] = []
     focus = (rng.choice(envs), rng.randrange(len(queries)))
     for _ in range(n_clients):
         script: List[List[Any]] = []
-        n_ops = rng.randint(2, 10) if kind != "threads" else rng.randint(1, 5)
+        n_ops = rng.randint(2, 14 if deep else 10) if kind != "threads" else rng.randint(1, 7 if deep else 5)
         for _ in range(n_ops):
             e = rng.choice(envs)
             qi = rng.randrange(len(queries))
@@ -162,7 +163,7 @@ def generate(seed: int, config: str, tier: str) -> Dict[str, Any]:
                     script.append(["findall", e, qi, di, ci])
                 elif r < 0.8:
                     script.append(["hot", e, qi, [rng.randrange(len(docs)) for _ in range(rng.randint(1, 3))], ci,
-                                   rng.choice([3, 10, 100 if rng.random() < 0.3 else 20])])
+                                   rng.choice([3, 10, (1000 if deep and rng.random() < 0.1 else 100) if rng.random() < 0.3 else 20])])
                 elif r < 0.86:
                     script.append(["recompile", e, qi, di, ci])
                 elif r < 0.9:
